@@ -364,6 +364,8 @@ class Node(ModelElement):
 
         node_id = self.topo.graph_model.find_ns_by_name(parent_node_id=self.node_id,
                                                         nsname=name)
+        # interfaces of this service (e.g. of a facility or a switch) may be connected to other services
+        self.topo._disconnect_interfaces(NetworkService(name=name, node_id=node_id, topo=self.topo).interface_list)
         self.topo.graph_model.remove_ns_with_cps_and_links(node_id=node_id)
 
     def remove_storage(self, name: str) -> None:
